@@ -78,6 +78,10 @@ pub mod storage;
 #[cfg(feature = "watch")]
 pub mod watch;
 
+#[cfg(feature = "verif-hooks")]
+#[doc(hidden)]
+pub mod verif;
+
 // ── User-facing public API ──────────────────────────────────────────────────
 pub use client::*;
 pub use command::*;
